@@ -1,3 +1,5 @@
+//go:build verif_c05
+
 package main
 
 // C05 — deterministic witness histories and the zip rewriting helper used to
